@@ -27,6 +27,7 @@ type c17Model struct {
 	Blocks int
 	Posts  int
 	Files  []string // "owner|merkle|start" of every file ever posted (candidates for later events)
+	Long   bool     // the 31-day block has happened
 }
 
 func (m c17Model) Key() []byte { return jkey(m) }
@@ -109,6 +110,9 @@ func (C17) Events(env world.Env, mm mc.Model) []string {
 	}
 	if m.Blocks < 6 {
 		evs = append(evs, "NextBlock")
+	}
+	if !m.Long {
+		evs = append(evs, "NextBlock31d") // every 30-day plan has run out afterwards
 	}
 	return evs
 }
@@ -245,11 +249,16 @@ func (C17) Apply(env world.Env, mm mc.Model, ev string) mc.Step {
 		return w.A(fp[0]).Bech, c17Files[fp[1]], s
 	}
 	switch p[0] {
-	case "NextBlock":
-		if bp := env.NextBlock(day); bp != nil {
+	case "NextBlock", "NextBlock31d":
+		dt := day
+		if p[0] == "NextBlock31d" {
+			dt, m.Long = 31*day, true
+		} else {
+			m.Blocks++
+		}
+		if bp := env.NextBlock(dt); bp != nil {
 			vs = append(vs, viol("no-panic", "block-panic", "%s", bp.Value))
 		}
-		m.Blocks++
 		st.Outcome = "block"
 	case "Post":
 		f := c17Files[p[2]]
